@@ -17,6 +17,7 @@
 */
 
 #include "memwrapper.h"
+#include "verif_hooks.h"
 #include <stdio.h>
 #include <stdlib.h>
 
@@ -27,6 +28,14 @@
 #include <unistd.h>
 #endif
 
+
+#ifdef LIBSCIENTIFIC_VERIF
+void   (*libsci_verif_rng)(int, const volatile uint32_t *, uint32_t) = 0;
+size_t (*libsci_verif_nproc)(size_t) = 0;
+void   (*libsci_verif_slice)(const char *, size_t, size_t, size_t, size_t) = 0;
+void   (*libsci_verif_iter)(const char *, size_t, double, double, double) = 0;
+void   (*libsci_verif_cv)(const char *, size_t, size_t, size_t, const void *) = 0;
+#endif
 
 void *xmalloc(size_t size)
 {
@@ -76,6 +85,7 @@ void GetNProcessor(size_t *nprocs_online, size_t *nprocs_max)
     if ((*nprocs_online) < 1){
       (*nprocs_online) = 1;
     }
+    VERIF_NPROC((*nprocs_online));
   }
   
   if(nprocs_max != NULL){
